@@ -102,6 +102,15 @@ def cases(seed, tier, shard, nshards):
         c = make_case(rng, g0, a, rng.choice(['ints', 'sparse', 'str']), f'rand{n}')
         c['assign'] = 'random'
         yield c
+    # very long chains and large rings (polymer backbones of more than a thousand beads), numbered from one end
+    if shard == seed % nshards:
+        for kind in ('chain', 'ring'):
+            n = rng.choice([1100, 1400])
+            g0 = nx.path_graph(n) if kind == 'chain' else nx.cycle_graph(n)
+            a = {frozenset(e): 1 for e in g0.edges}
+            m = {i: i for i in range(n)}
+            yield dict(nodes=[[i, NAMES[i % 3]] for i in range(n)], edges=[[u, v, 1] for u, v in g0.edges], gid=f'long_{kind}{n}', assign='single',
+                       default_recursion_limit=True)
     # dense graphs: more than ten ring bonds open at the same time, so the writer needs several %nn markers on one node
     for _ in range(max(1, cfg['rand'] // (4 * nshards))):
         n = rng.choice([7, 8, 9, 10, 12])
@@ -160,6 +169,29 @@ def run(case):
     g = build(case)
     viol = []
     s = None
+    if case.get('default_recursion_limit'):
+        # long chains / large rings under the interpreter's default recursion limit (networkx' matcher raises the limit
+        # as a side effect of earlier comparisons in this process); compared without a graph matcher
+        import collections
+        import sys
+        old_limit = sys.getrecursionlimit()
+        sys.setrecursionlimit(1000)
+        try:
+            s = write_cgsmiles_graph(g)
+            g2 = cgsmiles.read_cgsmiles(s)
+            same = (len(g2) == len(g) and g2.number_of_edges() == g.number_of_edges() and nx.is_connected(g2)
+                    and sorted(d for _, d in g2.degree) == sorted(d for _, d in g.degree)
+                    and collections.Counter(nx.get_node_attributes(g2, 'fragname').values()) == collections.Counter(nx.get_node_attributes(g, 'fragname').values())
+                    and all(d.get('order') == 1 for _, _, d in g2.edges(data=True)))
+            if not same:
+                viol.append(V('c07.not_isomorphic', f'{case["gid"]}: the written string ({len(s)} characters) reads back as {len(g2)} nodes / {g2.number_of_edges()} edges'))
+        except BaseException as err:
+            if isinstance(err, (KeyboardInterrupt, SystemExit)) or type(err).__name__ == 'CaseTimeout':
+                raise
+            viol.append(V('c07.exception.' + type(err).__name__, f'{case["gid"]} ({len(g)} nodes in a row) raised {type(err).__name__}: {str(err)[:100]}'))
+        finally:
+            sys.setrecursionlimit(old_limit)
+        return {'violations': viol, 'nontrivial': True, 'sample': case['gid'], 'cls': (case['gid'],)}
     try:
         s = write_cgsmiles_graph(g)
         g2 = cgsmiles.read_cgsmiles(s)
